@@ -119,6 +119,7 @@ class Source:
     def function(self, key: str) -> tuple[SourceModule, ast.FunctionDef]:
         """key = 'pyrtma.manager:MessageManager.forward_message'"""
         mn, qn = key.split(":")
+        qn = qn.split("#")[0]          # contract variants (same function, other parameter types)
         m = self.module(mn)
         if qn not in m.functions:
             raise KeyError(f"function {key} not found in {m.path}")
